@@ -88,6 +88,9 @@ func exploreScenarios(id, group, tier string) []*Scenario {
 	return exploreScenariosExtra(id, group, tier)
 }
 
+// protoOut is the stream the worker protocol writes to (the process's original stdout)
+var protoOut = os.Stdout
+
 var assumptions = map[string][]string{
 	"seq": {
 		"the reference model transcribes Redis 7 command semantics from the command reference (no Redis server is available offline)",
@@ -103,6 +106,8 @@ var assumptions = map[string][]string{
 }
 
 func runCheck(id, tier string) int {
+	// whatever the code under test prints goes to stderr; stdout carries the verdict lines only
+	os.Stdout = os.Stderr
 	redisemu.VInit()
 	level := "model_checking"
 	if l, ok := levelOverride[id]; ok {
@@ -152,6 +157,12 @@ func main() {
 	if len(os.Args) < 2 {
 		fmt.Fprintln(os.Stderr, "usage: mc check <ID> [--tier quick|thorough] | replay <file> | do CMD...")
 		os.Exit(2)
+	}
+	if len(os.Args) > 1 && (os.Args[1] == "worker" || os.Args[1] == "scanworker" || os.Args[1] == "exploreworker" || os.Args[1] == "genworker") {
+		// the worker protocol owns the original stdout; anything the code under test prints
+		// (CLIENT KILL has debugging Printlns) goes to stderr instead
+		protoOut = os.Stdout
+		os.Stdout = os.Stderr
 	}
 	switch os.Args[1] {
 	case "do":
